@@ -36,6 +36,7 @@ def shards(tier, seed):
         out.append({"kind": "metric", "np": "rad", "metric": metric, "tier": tier, "seed": 61 + seed})
         out.append({"kind": "metric", "np": "knn", "metric": metric, "tier": tier, "seed": 61 + seed})
     out.append({"kind": "decimal", "tier": tier, "seed": 61 + seed})
+    out.append({"kind": "nonhood", "tier": tier, "seed": 61 + seed})
     metrics = ["euclidean", "chebyshev", "cityblock"]
     for kind in ("rad", "knn"):
         for m1 in metrics:
@@ -98,6 +99,16 @@ def run_shard(shard):
         cfgs = [A.config(shard["ln"], shard["nn"], seed=shard["seed"])]
         lns = [shard["ln"]]
         grid = simrun.GRID
+    elif shard["kind"] == "nonhood":
+        # empty neighbourhoods with a non-uniform distribution over the arms
+        cfgs = [A.config("eg0", ["LSHNearest", {"n_dimensions": 12, "n_tables": 1, "no_nhood_prob_of_arm": [0.03, 0.97]}],
+                         seed=shard["seed"]),
+                A.config("eg0", ["Radius", {"radius": 0.05, "metric": "euclidean", "no_nhood_prob_of_arm": [0.96, 0.04]}],
+                         seed=shard["seed"] + 1),
+                A.config("ts", ["LSHNearest", {"n_dimensions": 10, "n_tables": 2, "no_nhood_prob_of_arm": [0.9, 0.1]}],
+                         seed=shard["seed"] + 2)]
+        lns = ["eg0", "eg0", "ts"]
+        grid = simrun.FGRID
     elif shard["kind"] == "decimal":
         # distances that differ from the radius / from each other by less than single precision
         cfgs = [A.config("eg0", ["Radius", {"radius": 0.3, "metric": "cityblock"}], seed=shard["seed"]),
@@ -118,7 +129,7 @@ def run_shard(shard):
         lns = ["eg0", "ucb"]
         grid = simrun.MGRID
     rows = ([6, 8] if tier == "quick" else [6, 8, 10])
-    if shard["kind"] in ("metric", "decimal"):
+    if shard["kind"] in ("metric", "decimal", "nonhood"):
         rows = [10, 12]                  # enough rows for a non-singular covariance in every training part
     for n in rows:
         for pattern in ("alt", "blocks", "late2"):
